@@ -76,7 +76,12 @@ func GenAdmission(prop string, seed uint64, thorough bool) *Scenario {
 	if canaryOK {
 		if hasPolling {
 			c := ClientSpec{Name: "c1", Transport: "polling", EIO: 4, Path: mount, Canary: true}
-			// (no upgrading canary here: the known flush-vs-check race of C08 would close it and blur this check)
+			if hasWS && g.p(0.4) {
+				// a session that is in the middle of an upgrade for the whole run: a candidate that probes and then
+				// takes its time (requests naming this session on the other transport are judged against that state)
+				c.CandKind, c.CandAtMs = "websocket", g.pick(50, 150)
+				c.Cand = []CandOp{{Op: "probe"}, {Op: "waitpong"}, {Op: "wait", WaitMs: 8000}}
+			}
 			for k := 0; k < 4; k++ {
 				c.Sends = append(c.Sends, ClientMsg{AtMs: 100 + k*sc.HorizonMs/6, ID: fmt.Sprintf("c1.u%d", k), Size: 10})
 			}
@@ -350,6 +355,22 @@ func oracleC05(f *sessionFam, w *World, res *Result) []Violation {
 					}
 				}
 				l.add("known-session-admitted", st, fmt.Sprintf("%s: %s %s was refused with 'Session ID unknown' although the session had not closed (state %s; close event: %v)", sp.Name, r.Method, clip(r.URL, 70), st, closeSeq != 0))
+			}
+		}
+	}
+	// ... and a request naming a session that has closed is refused: 400, code 1 (the probes of the end phase)
+	anyRaw := false
+	for _, c := range f.sc.Clients {
+		anyRaw = anyRaw || len(c.Raw) > 0
+	}
+	if !anyRaw && f.sc.Attach == nil {
+		for _, e := range w.evs("", "dead-sid-probe") {
+			if e.N != 400 || !strings.Contains(e.S, `"code":1`) {
+				c := "polling"
+				if len(e.P) > 0 {
+					c = e.P[0]
+				}
+				l.add("closed-session-refused", c, fmt.Sprintf("a %s request naming the closed session of %s was answered %d %q instead of 400 'Session ID unknown'", c, e.Sess, e.N, clip(e.S, 80)))
 			}
 		}
 	}
